@@ -83,6 +83,9 @@ func NewRunner(bin, home string) *Runner {
 	if goroot != "" {
 		r.baseEnv = append(r.baseEnv, "GOROOT="+goroot)
 	}
+	if d := os.Getenv("VERIF_COVERDIR"); d != "" {
+		r.baseEnv = append(r.baseEnv, "GOCOVERDIR="+d)
+	}
 	return r
 }
 
